@@ -206,6 +206,28 @@ Example C19_psbt_nonvacuous :
                                        Some {| o_value := 11; o_spk := wpk |}; Some {| o_value := 13; o_spk := sh |}].
 Proof. vm_compute. split; [reflexivity|]. eexists. split; reflexivity. Qed.
 
+(** Consistency is per input: nothing relates the previous transactions of different inputs.
+    Inputs spending different outputs of ONE previous transaction (a deposit swept together with
+    its change) — adjacent or with another input in between, with that transaction attached to
+    all, one or none of them — are accepted, and so is the same outpoint twice (the decoder has
+    no rule about it). *)
+Example C19_psbt_sibling_inputs :
+  let wpk := hx "0014be18d152a9b012039daf3da7de4f53349eecb985" in
+  let o := fun v => {| o_value := v; o_spk := wpk |} in
+  let par := {| pt_txid := rep 32 1; pt_outs := [o 5; o 7; o 9] |} in
+  let oth := {| pt_txid := rep 32 2; pt_outs := [o 3] |} in
+  let tin := fun id v => {| ti_txid := rep 32 id; ti_vout := v; ti_sig_empty := true; ti_wit_empty := true |} in
+  let p := {| p_tx := [2]; p_txins := [ tin 1 0; tin 2 0; tin 1 2; tin 1 1; tin 1 1 ];
+              p_inputs := [ {| i_nwu := Some par; i_wu := None |};
+                            {| i_nwu := Some oth; i_wu := Some (o 3) |};
+                            {| i_nwu := Some par; i_wu := Some (o 9) |};
+                            {| i_nwu := None; i_wu := Some (o 7) |};
+                            {| i_nwu := Some par; i_wu := None |} ] |} in
+  streamable p = true /\
+  exists p', streamed_post p = Some (p', [true; true; true; false; true]) /\
+             map i_wu (p_inputs p') = [Some (o 5); Some (o 3); Some (o 9); Some (o 7); Some (o 7)].
+Proof. vm_compute. split; [reflexivity|]. eexists. split; reflexivity. Qed.
+
 (** ... and a bare claim about a legacy (p2pkh) output, or about a script one byte off p2sh,
     is refused, while the same claim backed by the previous transaction is taken. *)
 Example C19_psbt_bare_legacy_refused :
